@@ -2,6 +2,7 @@ package main
 
 import (
 	"bufio"
+	"encoding/json"
 	"fmt"
 	"os"
 	"path/filepath"
@@ -85,6 +86,8 @@ func init() {
 			}
 			c.R.Violate("skip:"+firstWord(v.Note), fmt.Sprintf("in=%v %s", v.In, v.Note), map[string]any{"engine": "skip", "in": v.In})
 		}
+		// (c') record-length sweep: well-formed records far outside that alphabet
+		skipSweepRun(c, func(what string) bool { return what == "skip" })
 		// (d) sweep of the 32-bit range (and its images in the high half / sign-extended), sample to TLC
 		stride := uint64(c.pick(64, 1))
 		evs := filepath.Join(dir, "sweep.ndjson")
@@ -132,4 +135,66 @@ func firstWord(s string) string {
 		}
 	}
 	return s
+}
+
+// skipSweepRun: record-length sweep (spec/Trace_Skip.tla). what = "skip" (runtime.Skip returned
+// another length than the record's) or "unknown" (the record was not stored / re-emitted byte for
+// byte by a type that does not declare the field).
+func skipSweepRun(c *Ctx, inScope func(what string) bool) {
+	for i, t := range []string{"ImportedMessage", "verif.nm.Namespace", "verif.s0.N"} {
+		found := false
+		for _, x := range c.S.Types {
+			if x.Name == t {
+				found = true
+			}
+		}
+		if !found {
+			continue
+		}
+		dir := filepath.Join(c.S.Dir, fmt.Sprintf("skipsweep%d", i))
+		os.MkdirAll(dir, 0o755)
+		evs := filepath.Join(dir, "events.ndjson")
+		if o, err := c.S.HRun(10*time.Minute, "skip-sweep", "--type", t, "--maxlen", fmt.Sprint(c.pick(1100, 5000)), "--seed", fmt.Sprint(c.Seed), "--out", evs); err != nil {
+			c.R.InternalErr("skip-sweep %s: %v %s", t, err, trunc(o, 500))
+			continue
+		}
+		lines := readLines(evs)
+		res, err := RunTLC(filepath.Join(dir, "tlc"), TLCOpts{Spec: "Trace_Skip", Cfg: "Trace_Skip.cfg", Env: map[string]string{"VERIF_TRACE": evs}, Timeout: 20 * time.Minute})
+		if err != nil || res.Err != "" {
+			c.R.InternalErr("Trace_Skip %s: %v %s", t, err, trunc(res.Err, 500))
+			continue
+		}
+		done := false
+		for _, l := range res.Lines {
+			if strings.HasPrefix(l, "TRACE-DONE") {
+				done = true
+			}
+			if !strings.HasPrefix(l, "VERDICT ") {
+				continue
+			}
+			var v struct {
+				L    int
+				What string
+				Want int
+			}
+			json.Unmarshal([]byte(l[8:]), &v)
+			ev := ""
+			if v.L >= 1 && v.L <= len(lines) {
+				ev = lines[v.L-1]
+			}
+			if strings.HasPrefix(v.What, "INTERNAL") {
+				c.R.InternalErr("Trace_Skip %s: %s %s", t, v.What, trunc(ev, 300))
+				continue
+			}
+			if inScope(v.What) {
+				c.R.Violate("skipsweep:"+v.What, fmt.Sprintf("type=%s expected record length %d: %s", t, v.Want, trunc(ev, 400)), map[string]any{"engine": "skipsweep", "type": t, "event": trunc(ev, 2000)})
+			}
+		}
+		if !done {
+			c.R.InternalErr("Trace_Skip %s did not consume the trace", t)
+		}
+		c.R.AddCount("traces_validated_against_impl", int64(len(lines)))
+		c.R.AddCount("evaluations", int64(len(lines)))
+		c.R.Cov["skip_sweep_records"] = len(lines)
+	}
 }
